@@ -44,6 +44,25 @@ FRAGS = ["'", '"', "`", "\\", "$", "$(", ")", "(", "${", "}", "{", "|", "||", "&
 BANNED_WORDS = ("exit", "exec ")
 
 
+def tame_ranges(line):
+    """bound the work a line legitimately asks for: `{1..999999999}` is a finite but hour-long (and 30 GB)
+    expansion that a wall-clock watchdog cannot tell from a loop.  Ranges keep a span <= 100 and a line keeps at
+    most 3 of them (their product is what gets materialised); numbers too large for the range parser stay."""
+    count = [0]
+
+    def fix(m):
+        a, b = int(m.group(1)), int(m.group(2))
+        if abs(a) > 2 ** 31 or abs(b) > 2 ** 31:
+            return m.group(0)          # not parsed as a range at all
+        count[0] += 1
+        if count[0] > 3:
+            return "Q" + m.group(0)[1:]
+        if abs(b - a) > 100:
+            b = a + 100 if b > a else a - 100
+        return "{%d..%d" % (a, b)
+    return re.sub(r"\{(-?\d+)\.\.(-?\d+)", fix, line)
+
+
 def gen_line(rng, seeds):
     r = rng.random()
     if r < 0.6:
@@ -66,7 +85,7 @@ def gen_line(rng, seeds):
                 line = line[:j] + line[i:j] + line[j:]
             else:
                 line = line[:i] + rng.choice("'\"`\\$(){}|&;<>*~# ") + line[i:]
-    line = line[:200].replace("\r", "").replace("\x00", "")
+    line = tame_ranges(line[:200].replace("\r", "").replace("\x00", ""))
     # keep the vocabulary hermetic: only helpers, builtins and names that do not exist can run
     line = re.sub(r"\b(exit|exec)\b", "Qx", line)
     return common.hermetic(line)
